@@ -36,6 +36,17 @@ pub fn run(tier: &str, out: &str) -> i32 {
             }
         }
     }
+    // long inputs (thousands of items per iterator)
+    for (len, seed) in [(1030usize, 5u64), (2049, 6), (5000, 1), (20_000, 3), (70_000, 4)] {
+        let s = crate::iters::long_input(len, seed);
+        for k in [1usize, 4, 31] {
+            kmer_line(&mut w, &s, k);
+        }
+        for (wsz, m) in [(1usize, 1usize), (5, 3), (31, 7), (40, 28)] {
+            let items: Vec<String> = MinimiserGenerator::new(&s, wsz, m).map(|(v, a, b)| format!("{}:{}:{}", v, a, b)).collect();
+            writeln!(w, "M {} {} {} {}", hex(&s), wsz, m, items.join(",")).unwrap();
+        }
+    }
     // minimiser iterator
     for_each_string(S5, 0, if thorough { 7 } else { 6 }, |s| {
         for wsz in 1..=4usize {
@@ -77,6 +88,18 @@ pub fn run(tier: &str, out: &str) -> i32 {
     for k in [15usize, 16, 17, 28, 30, 31] {
         for x in [0u64, 1, 2, 3, (1u64 << (2 * k)) - 1, (1u64 << (2 * k - 1)) + 5, 0x1234_5678_9abc_def0 & ((1u64 << (2 * k)) - 1)] {
             writeln!(w, "T {} {} {}", k, x, kmer::numeric_to_kmer(x, k)).unwrap();
+        }
+    }
+    // long records for the per-sequence classes
+    for (len, seed) in [(5000usize, 1u64), (70_000, 4)] {
+        let s = crate::iters::long_input(len, seed);
+        let clean: Vec<u8> = s.iter().map(|&b| if b == b'N' { b'A' } else { b }).collect();
+        let o3 = OligoComputer::new("-".into(), "-".into(), 3);
+        let v: Vec<String> = o3.verif_vectorise_one(&s).iter().map(|x| bits(*x)).collect();
+        writeln!(w, "O {} 3 1 {}", hex(&s), v.join(",")).unwrap();
+        let c = CgrComputer::new("-".into(), "-".into(), 16);
+        if let Ok(p) = c.verif_vectorise_one(&clean) {
+            writeln!(w, "G {} 16 {}", hex(&clean), p.iter().map(|q| format!("{}:{}", bits(q.0), bits(q.1))).collect::<Vec<_>>().join(",")).unwrap();
         }
     }
     // CGR (values and refusals)
